@@ -760,7 +760,9 @@ def _worker (cases):
     for key, text in bad:
       rep.violation(key, "%s side, %s %s=%s%s placed %s (%s): %s" %
                     ("controller" if side == "ctl" else "switch", inst.name, case["field"], case["val"],
-                     "+EOF" if case["eof"] else "", case["pos"], "one recv" if case["glue"] else "separate recvs", text), case)
+                     "+EOF" if case["eof"] else "", case["pos"], "one recv" if case["glue"] else "separate recvs", text),
+                    case if not (("hdr.length<8" in key or "unframeable" in key) and case["field"] != "hdr.length") else
+                    dict(case, note="the header with length < 8 is a by-product of the mis-framing this corruption causes"))
     if not bad and rep.evaluations % 400 == 1:
       rep.sample(dict(case=case, hostile_deliveries=[d["cls"] for d in w.deliv[HOSTILE]], errors_sent=len(w.errs[HOSTILE]),
                       hostile_closed=w.closed[HOSTILE], sibling_deliveries=[len(w.deliv[0]), len(w.deliv[2])]))
@@ -804,7 +806,7 @@ def run (cfg):
 
 def replay (cfg, data):
   insts = R.catalogue()
-  case = dict(data)
+  case = dict(data); case.pop("note", None)
   if case.get("name"):                       # the instance is identified by name; the index is a cache
     case["inst"] = [i.name for i in insts].index(case["name"])
   w, bad, summ = _execute_and_judge(case, insts)
